@@ -4,6 +4,7 @@
 mod c01;
 mod c01_typed;
 mod c02;
+mod c03;
 mod c04;
 mod c05;
 mod c06;
@@ -12,9 +13,11 @@ mod c08;
 mod c09;
 mod c10;
 mod c11;
+mod c12;
 mod ggen;
 mod hostile;
 mod sgen;
+mod shist;
 mod c13;
 mod c14;
 mod c15;
@@ -27,6 +30,7 @@ mod c19_nodes;
 mod c19_ops;
 mod c19_texts;
 mod isolate;
+mod lay;
 mod c20;
 mod c20_enum;
 mod c20_gen;
@@ -98,6 +102,7 @@ fn main() {
 		let code = match prop.as_str() {
 			"C01" => c01::replay(&v),
 			"C02" => c02::replay(&v),
+			"C03" => c03::replay(&v),
 			"C04" => c04::replay(&v),
 			"C05" => c05::replay(&v),
 			"C06" => c06::replay(&v),
@@ -106,6 +111,7 @@ fn main() {
 			"C09" => c09::replay(&v),
 			"C10" => c10::replay(&v),
 			"C11" => c11::replay(&v),
+			"C12" => c12::replay(&v),
 			"C13" => c13::replay(&v),
 			"C14" => c14::replay(&v),
 			"C15" => c15::replay(&v),
@@ -125,6 +131,7 @@ fn main() {
 	match prop.as_str() {
 		"C01" => c01::run(&mut rep),
 		"C02" => c02::run(&mut rep),
+		"C03" => c03::run(&mut rep),
 		"C04" => c04::run(&mut rep),
 		"C05" => c05::run(&mut rep),
 		"C06" => c06::run(&mut rep),
@@ -133,6 +140,7 @@ fn main() {
 		"C09" => c09::run(&mut rep),
 		"C10" => c10::run(&mut rep),
 		"C11" => c11::run(&mut rep),
+		"C12" => c12::run(&mut rep),
 		"C13" => c13::run(&mut rep),
 		"C14" => c14::run(&mut rep),
 		"C15" => c15::run(&mut rep),
